@@ -4,7 +4,7 @@
 # /verif/seeded2/<group>_<k>/, applies it to /repo, runs the named checks in dev mode, undoes it. Expected rc=1.
 g=$1; k=$2; shift; shift
 W=/tmp/brk_$g
-D=/verif/seeded2/${g}_$k
+D=/verif/${SEEDDIR:-seeded2}/${g}_$k
 mkdir -p $D
 if [ -d $W ]; then
   cp $W/break_$k.diff $D/patch.diff; cp $W/demo_break_$k.rs.demo $D/demo.rs
